@@ -177,7 +177,7 @@ func (e *Engine) intrinsic(fn *ssa.Function, args []Value) (Value, bool) {
 	case "unicode/utf8.RuneCountInString":
 		switch s := args[0].(type) {
 		case *Term:
-			return &Term{"(runelen " + s.S + ")", bvSort(64)}, true
+			return mkTerm("(runelen "+s.S+")", bvSort(64)), true
 		}
 		return int64(utf8.RuneCountInString(e.concreteStr(args[0]))), true
 	case "unicode.IsUpper":
@@ -200,7 +200,7 @@ func (e *Engine) intrinsic(fn *ssa.Function, args []Value) (Value, bool) {
 		return int64(unicode.ToLower(rune(args[0].(int64)))), true
 	case "math.IsNaN":
 		if t, ok := args[0].(*Term); ok {
-			return boolVal(&Term{"(fp.isNaN " + t.S + ")", "Bool"}), true
+			return boolVal(mkTerm("(fp.isNaN "+t.S+")", "Bool")), true
 		}
 		f := args[0].(float64)
 		return f != f, true
@@ -210,12 +210,12 @@ func (e *Engine) intrinsic(fn *ssa.Function, args []Value) (Value, bool) {
 			if !ok {
 				panic(abort{"math.IsInf with symbolic sign"})
 			}
-			inf := &Term{"(fp.isInfinite " + t.S + ")", "Bool"}
+			inf := mkTerm("(fp.isInfinite "+t.S+")", "Bool")
 			switch {
 			case sign > 0:
-				return boolVal(tAnd(inf, &Term{"(fp.isPositive " + t.S + ")", "Bool"})), true
+				return boolVal(tAnd(inf, mkTerm("(fp.isPositive "+t.S+")", "Bool"))), true
 			case sign < 0:
-				return boolVal(tAnd(inf, &Term{"(fp.isNegative " + t.S + ")", "Bool"})), true
+				return boolVal(tAnd(inf, mkTerm("(fp.isNegative "+t.S+")", "Bool"))), true
 			}
 			return boolVal(inf), true
 		}
